@@ -1,7 +1,7 @@
 (** C18 — Module imports stay acyclic and visibility matches the declarations.
     Statements only; proofs in Proofs/ModuleProofs.v.  Model of the repaired code (delete_module
     also drops import declarations naming the deleted module). *)
-From RRE Require Import Base.Sx Model.Module Proofs.ModuleProofs.
+From RRE Require Import Base.Sx Model.Module Proofs.ModuleProofs Proofs.ModuleAcyclicProofs.
 Open Scope N_scope.
 
 (** A refused operation (in particular an import that would close a cycle) changes nothing. *)
@@ -30,6 +30,43 @@ Theorem C18_visible_iff_declared : forall ops r to,
   is_rule_visible (exec init ops) r to = spec_visible (mods (exec init ops)) r to.
 Proof. exact visible_iff_declared. Qed.
 Print Assumptions C18_visible_iff_declared.
+
+(** The headline: after EVERY operation sequence no existing module reaches itself through one or more
+    declared imports ([dedge ms a b]: module a exists and declares an import from b). *)
+Theorem C18_imports_stay_acyclic : forall ops a, ~ path (dedge (mods (exec init ops))) a a.
+Proof. exact imports_acyclic. Qed.
+Print Assumptions C18_imports_stay_acyclic.
+
+(** The separate import_graph that detect_cycle reads is, in every reachable state, exactly the set of
+    declared imports of the existing modules (the "two records that must agree"). *)
+Theorem C18_graph_is_declarations : forall ops a b,
+  In b (graph_of (graph (exec init ops)) a) <-> dedge (mods (exec init ops)) a b.
+Proof. exact graph_is_declarations. Qed.
+Print Assumptions C18_graph_is_declarations.
+
+(** An import is refused exactly for the documented reasons: a module is missing, or it would close a cycle. *)
+Theorem C18_import_refused_only_for_cause : forall ops to from t pat re,
+  snd (step (exec init ops) (Import to from t pat re)) = false ->
+  find_mod (mods (exec init ops)) from = None \/ find_mod (mods (exec init ops)) to = None
+  \/ to = from \/ path (dedge (mods (exec init ops))) from to.
+Proof. exact import_refused_only_for_cause. Qed.
+Print Assumptions C18_import_refused_only_for_cause.
+
+Theorem C18_import_closing_a_cycle_refused : forall ops to from t pat re,
+  to = from \/ path (dedge (mods (exec init ops))) from to ->
+  snd (step (exec init ops) (Import to from t pat re)) = false.
+Proof. exact import_closing_a_cycle_refused. Qed.
+Print Assumptions C18_import_closing_a_cycle_refused.
+
+(** the breadth-first search with its fuel is a correct reachability test on ANY graph *)
+Theorem C18_detect_cycle_is_reachability : forall g to from,
+  detect_cycle g to from = true <-> to <> from /\ ~ path (fun a b => In b (graph_of (graph g) a)) from to.
+Proof.
+  intros g to from. split; [exact (detect_cycle_sound g to from)|].
+  intros [Hne Hnp]. destruct (detect_cycle g to from) eqn:E; [reflexivity|].
+  destruct (detect_cycle_complete g to from E) as [H|H]; contradiction.
+Qed.
+Print Assumptions C18_detect_cycle_is_reachability.
 
 (** non-vacuity + the repaired witness: A imports B; delete B; recreate B; B imports A is accepted
     only because the stale declaration is gone, and the declared relation stays acyclic. *)
